@@ -131,6 +131,8 @@ def main():
                     os.remove(p.cache_path / "meta.yml")
             if wl in ("W5", "W5f", "W6"):
                 cat.build_trees(B1)
+        elif wl == "W7n":  # serialising to a path that does not exist yet
+            pass
         elif wl in ("W7", "W8", "W9"):
             cf, cd, conf = products("old")
             if wl == "W7":
@@ -178,10 +180,10 @@ def main():
             Catalog(R).build_trees(B2, force=True)
         elif wl == "W6":
             Catalog(R).build_trees(None)
-        elif wl in ("W7", "W8", "W9"):
+        elif wl in ("W7", "W7n", "W8", "W9"):
             cf, cd, conf = products("new")
             arm()
-            if wl == "W7":
+            if wl in ("W7", "W7n"):
                 cf.to_file(os.path.join(base, "cf.hdf"))
             elif wl == "W8":
                 cd.to_files(os.path.join(base, "cd"))
